@@ -19,7 +19,7 @@ func init() {
 		ID: "C13", Level: "model_checking",
 		Rule:   "ELX with slow (gated) handlers, MaxConcurrentStreams=2, MaxRequestBodySize=8, MaxHeaderListSize=400: every sequence up to the depth bound over the adversarial moves {request (HEADERS+ES) on a new id, half-open request, RST_STREAM of the newest stream, PRIORITY / WINDOW_UPDATE on a new idle id, HEADERS without END_HEADERS, CONTINUATION with more fields, DATA over the body limit, mis-declared content-length, PING, SETTINGS, oldest handler returns}; plus every non-fatal sequence pumped x8 and x32 to separate 'bounded by the limits' from 'grows with the frames sent'. Oracle at every quiescent state: handlers running <= MaxConcurrentStreams; body and header list seen by a handler within the limits; objects the connection holds (pool gauges of the controlled runtime: Stream, RequestCtx, FrameHeader, frame bodies) within limit-derived bounds and equal for both pump counts. Non-trivial: sequence has >= 3 moves or is pumped; distinct by (sequence, pump).",
 		Assume: []string{"per-connection state is observed as outstanding pooled objects (Get minus Put) of the deterministic pools the overlay substitutes for sync.Pool; the closed-stream ring (bounded by a constant in the code) is not observable this way", "canonical internal schedule between events"},
-		Run:    runC13, Replay: replayC13, Policies: 1, QuickS: 120, ThoroughS: 900,
+		Run:    runC13, Replay: replayC13, Policies: 1, QuickS: 200, ThoroughS: 900,
 	})
 }
 
